@@ -351,7 +351,7 @@ def splice(template_path, repo_root, canary=False, quarantine=(), inline=None):
                 if expected is None:
                     expected = [p for p in hp if not p.startswith("__")]
                 renames = []
-                if [p for p in body.params] != expected:
+                if expected != ["*"] and [p for p in body.params] != expected:      # `params: *` (fragments): the real parameter list is not an anchor
                     # R5b: the same number of parameters under other names (self in the same place): the contract keeps its
                     # names and the body gets `let <real name> = <contract name>;` in front — unless fragments / explicit
                     # `params:` are in play, where the names are the anchor
